@@ -187,7 +187,10 @@ func c15Run(raw []byte) (*Line, error) {
 		}
 		var params []float64
 		pan, _ := catch(func() { params = fit.LinearLeastSquares(xs, ys, ws, terms...) })
-		l.Fs(xs).Fs(ys).B(c.HasW).Fs(ws)
+		// the line carries the arguments AS GIVEN (the copies taken before the call), never what the library
+		// left in the caller's slices: the reference fit is the one of the case, and "unmodified" alone
+		// says whether xs, ys AND the weights still hold these values, bit for bit
+		l.Fs(xs0).Fs(ys0).B(c.HasW).Fs(ws0)
 		l.I(len(c.Basis))
 		for j := range c.Basis {
 			l.Fs(cols[j])
@@ -200,7 +203,7 @@ func c15Run(raw []byte) (*Line, error) {
 	case 1:
 		var res fit.PolynomialRegressionResult
 		pan, _ := catch(func() { res = fit.PolynomialRegression(xs, ys, ws, c.Deg) })
-		l.Fs(xs).Fs(ys).B(c.HasW).Fs(ws).I(c.Deg).I(status(pan))
+		l.Fs(xs0).Fs(ys0).B(c.HasW).Fs(ws0).I(c.Deg).I(status(pan))
 		if pan {
 			l.I(0).I(0).I(0).I(0).B(unmodified())
 			l.I(0).I(0).I(0)
@@ -246,7 +249,7 @@ func c15Run(raw []byte) (*Line, error) {
 		var f func(float64) float64
 		span := float64(c.Span)
 		pan, _ := catch(func() { f = fit.LOESS(xs, ys, c.Deg, span) })
-		l.Fs(xs).Fs(ys).I(c.Deg).F(span).I(status(pan))
+		l.Fs(xs0).Fs(ys0).I(c.Deg).F(span).I(status(pan))
 		if pan {
 			l.I(0).B(unmodified()).I(0)
 			break
@@ -360,7 +363,49 @@ func c15Queries(rng *rand.Rand, xs []float64, n int) []float64 {
 	return qs
 }
 
-func c15Gen(tier string, rng *rand.Rand, emit func(interface{})) {
+// Weights of EXTREME magnitude (seeded change C20-8: LinearLeastSquares divided weights beyond 1e+-100 by their
+// maximum in the caller's slice).  Only the RELATIVE weights matter - the minimiser of sum w_i r_i^2 is invariant
+// under a common positive factor, and so are kappa(X^T W X) and every tolerance of Check/C15.v (orthogonality
+// defect and its scale are both linear in w) - so the same comparator judges the scaled twin with no change; the
+// powers of two and the decimal factors are all dyadic rationals (about 500 bits), which the exact solver
+// handles at the same speed.  Every 6th weighted LinearLeastSquares / PolynomialRegression case of the
+// generator (well-formed: one positive weight at least, lengths equal) is emitted a second time with ALL its
+// weights multiplied by the next factor of this list; nothing overflows (|w x^(2 deg)| n < 1e190).
+var c15WFactors = []float64{math.Ldexp(1, 500), math.Ldexp(1, -500), 1e150, 1e-150, 1e101, 1e-101, 1e102, 1e-103}
+
+func c15ExtremeTwin(c c15Case, k int) (c15Case, bool) {
+	if c.Op == 2 || !c.HasW || len(c.W) == 0 || len(c.W) != len(c.Xs) || len(c.Ys) != len(c.Xs) {
+		return c, false
+	}
+	f := c15WFactors[k%len(c15WFactors)]
+	w := make([]F64, len(c.W))
+	pos := false
+	for i, v := range c.W {
+		w[i] = F64(float64(v) * f)
+		if v > 0 {
+			pos = true
+		}
+		if v < 0 || (v != 0 && (w[i] == 0 || math.IsInf(float64(w[i]), 0))) {
+			return c, false
+		}
+	}
+	c.W = w
+	return c, pos
+}
+
+func c15Gen(tier string, rng *rand.Rand, emit0 func(interface{})) {
+	weighted := 0
+	emit := func(ci interface{}) {
+		emit0(ci)
+		if c, ok := ci.(c15Case); ok {
+			if t, ok := c15ExtremeTwin(c, weighted/6); ok {
+				weighted++
+				if weighted%6 == 0 {
+					emit0(t)
+				}
+			}
+		}
+	}
 	thorough := tier == "thorough"
 	mul := 1
 	if thorough {
